@@ -11,7 +11,7 @@ impl vstd::std_specs::convert::TryFromSpecImpl<Vec<u8>> for SerializedTlvStream 
 //@ fn tlv::ProtoBuf::get_compact_size
 //@ returns r
 //@ implicit [C18,C06]
-//@ ensures#total_and_exact [C18,C06]
+//@ ensures#total_and_exact [C18,C06,C10,C13]
 //    never reads past the end: truncated => Err; otherwise the BigSize value, buffer advanced past it
       match cs_dec(old(self).bview()) {
           None => r is Err,
@@ -35,7 +35,7 @@ impl vstd::std_specs::convert::TryFromSpecImpl<Vec<u8>> for SerializedTlvStream 
 //@ fn tlv::SerializedTlvStream::from_bytes
 //@ returns r
 //@ implicit [C18,C06]
-//@ ensures#total_and_equals_parse [C18,C06]
+//@ ensures#total_and_equals_parse [C18,C06,C10,C13]
       match parse(as_ref_bytes(s)) {
           None => r is Err,
           Some(es) => r is Ok && r->Ok_0.view_entries() == es,
